@@ -316,6 +316,37 @@ example :
     startsWith, lit_ERROR, lit_CLIENT_ERROR, lit_SERVER_ERROR, SP, List.idxOf?, List.findIdx?,
     List.findIdx?.go]
 
+/-- the administrative operations are inside the theorem: `stats` answered by `STAT pid 1\r\nEND\r\n` in two pieces
+(with an interrupted `recv()` in between), `cache_memlimit 64` answered `OK\r\n`, `shutdown graceful` answered by a line
+that is not an error line — the three scripts are well-framed, the calls return normally and leave the socket open, so
+`C01_call_clean` says nothing is left unread -/
+example :
+    WellFramed {} (.stats []) [.data [83, 84, 65, 84, 32, 112, 105, 100], .eintr,
+      .data [32, 49, 13, 10, 69, 78, 68, 13, 10]] ∧
+    Client.call {} false true (.stats []) { evs := [.data [83, 84, 65, 84, 32, 112, 105, 100], .eintr,
+      .data [32, 49, 13, 10, 69, 78, 68, 13, 10]] } =
+      ⟨.ok (.stats [(.bytes [112, 105, 100], [49])]), true, false, some [115, 116, 97, 116, 115, 13, 10], []⟩ ∧
+    WellFramed {} (.cacheMemlimit (.int 64)) [.data [79, 75, 13, 10]] ∧
+    (Client.call {} false true (.cacheMemlimit (.int 64)) { evs := [.data [79, 75, 13, 10]] }).res = .ok (.bool true) ∧
+    (Client.call {} false true (.cacheMemlimit (.int 64)) { evs := [.data [79, 75, 13, 10]] }).sockOpen = true ∧
+    WellFramed {} (.shutdown true) [.data [79, 75, 13, 10]] ∧
+    (Client.call {} false true (.shutdown true) { evs := [.data [79, 75, 13, 10]] }).res = .ok .none ∧
+    (Client.call {} false true (.shutdown true) { evs := [.data [79, 75, 13, 10]] }).sockOpen = true :=
+  ⟨wf_stats, by with_unfolding_all rfl, wf_cacheMemlimit, by with_unfolding_all rfl, by with_unfolding_all rfl,
+   wf_shutdown, by with_unfolding_all rfl, by with_unfolding_all rfl⟩
+
+/-- `shutdown` against a server that does shut down: nothing comes back, the connection is closed by the peer.  The
+script is `FaultFramed` (an empty prefix of the owed line, then end-of-stream); `_misc_cmd` closes the socket and raises
+`MemcacheUnexpectedCloseError`, which `shutdown()` swallows: the call returns `None` with the socket closed, so the
+hypothesis `sockOpen = true` of `C01_call_clean_faults` fails and the next call reconnects. -/
+example :
+    FaultFramed {} (.shutdown false) [.data []] ∧
+    Client.call {} false true (.shutdown false) { evs := [.data []] } =
+      ⟨.ok .none, false, false, some [115, 104, 117, 116, 100, 111, 119, 110, 13, 10], []⟩ := by
+  refine ⟨⟨[], [.data []], rfl, trivial, .inr ⟨⟨[79, 75, 13, 10], by simp, ?_⟩, rfl⟩⟩, by with_unfolding_all rfl⟩
+  rw [owed_shutdown]
+  exact ⟨[[79, 75, 13, 10]], rfl, by simp [LineUnit]; exact ⟨[79, 75], by decide⟩, by simp [joinData]⟩
+
 /-- C01 (perfect connection — the situation of `Client.onServer`): if the whole reply arrives in one piece
 and is exactly what the call is owed, a call that leaves the socket open leaves *nothing* behind, so
 the third component of `Client.onServer` (`sockOpen && unread = []`) is then just `sockOpen`. -/
